@@ -21,20 +21,27 @@ class C02(Spec):
                   "unrelated pending updates/commits/rollbacks/sets; all roots must equal the reference (predicate) and the "
                   "byte-exact roots of the Lean model (diff). "
                   "Refuted part: 'the memTree cache is transparent' is false of the code (cache_transparent_full_false on the "
-                  "abstract cache protocol; replayed on the real code by the hunt run, documented witnesses first: KNOWN-FINDING "
+                  "abstract cache protocol, and reproduced byte for byte by the literal lazy model C02L: the hunt run and "
+                  "corpus/C02/stale-memtree-witness.ops replay the documented witnesses through the driver, panics included: KNOWN-FINDING "
                   "C02|{Store.MemSet,Store.Set,read-after-restart}|panic-after-{rolled-back,left-pending}-"
                   "{update-of-same-content,no-op-update} — the last victim means a committed root is unreadable after a process "
                   "restart: dangling child keys were persisted); "
                   "cache_transparent_partial holds when memTree only holds committed records.")
-    level_note = ("The byte-level model treats memTree/tkCloseCache as a transparent cache (no memTree state); the memTree "
-                  "protocol is modelled separately on abstract keys (C02.Mem). The cross-configuration theorem is about the "
-                  "in-memory evolution (sets + Hash); save/load between blocks is executed by the driver and compared with Go, "
-                  "not proved. memTree is a process global keyed by node hash: the harness resets it for every new database "
-                  "(a new database stands for a new process); within a store it carries all history. In the differential run a noise "
-                  "MemSet whose root is already committed (the trigger shape) is committed at once instead of being left pending, so "
-                  "that stream stays inside the modelled behaviour; the hunt run exercises exactly that shape, predicate only "
-                  "(control store vs test store, then a cold restart and full reads). Values are not read under MVCC (they depend "
-                  "on what memTree holds). farm64 collisions ignored.")
+    level_note = ("Two executable models: the eager one (C02: whole trees, memTree/tkCloseCache transparent) carries the "
+                  "theorems and is the driver's model for the stores without memTree; the literal lazy one (C02L, driver line "
+                  "'lazy': nodes fetched one at a time through node cache -> memTree -> database, memTree with its toggle Add, "
+                  "Hash moving obsolete/updated nodes into memTree, state kept after a panic) is the driver's model for every "
+                  "memTree store of the differential run, for the hunt without pruning and for the witness corpus; no theorems "
+                  "are stated about C02L (its agreement with C02 away from the trigger shape is observed, not proved); the "
+                  "memTree protocol is modelled separately on abstract keys (C02.Mem) for the refutation theorem. Not in C02L: "
+                  "tkCloseCache, the pruning bookkeeping (the hunt with EnableMavlPrune is predicate-only: control store vs "
+                  "test store, then a cold restart and full reads), ARC eviction (the node cache never fills in a run). "
+                  "The cross-configuration theorem is about the in-memory evolution (sets + Hash); save/load between blocks is "
+                  "executed by the driver and compared with Go, not proved. memTree is a process global keyed by node hash: "
+                  "the harness resets it for every new database (a new database stands for a new process); within a store it "
+                  "carries all history. The differential run uses fresh keys in every noise batch so that it stays clear of "
+                  "the trigger shape. Values are not read under MVCC (they depend on what memTree holds). farm64 collisions "
+                  "ignored.")
     assumptions = (
         "hash function with 32-byte outputs (SHA-256); no injectivity assumed",
         "farm.Hash64 collision-free on the node keys of a run (memTree keys)",
@@ -43,8 +50,10 @@ class C02(Spec):
 
     def runs(self, tier, seed):
         # run 0: differential (all roots recomputed by the Lean model) + cross-configuration predicate
-        # run 1: stale-memTree hunt, predicate only (control store vs test store on the real code)
-        return [dict(env={}), dict(env={"VERIF_C02_MODE": "hunt"}, nodrv=True)]
+        # run 1: stale-memTree hunt without pruning, replayed by the literal lazy model (driver line "lazy")
+        # run 2: the same hunt with EnableMavlPrune, predicate only
+        return [dict(env={}), dict(env={"VERIF_C02_MODE": "hunt"}),
+                dict(env={"VERIF_C02_MODE": "hunt-prune"}, nodrv=True)]
 
     def drv_for(self, run):
         return None if run.get("nodrv") else self.drv
